@@ -735,7 +735,6 @@ func (h *Hashgraph) InsertEvent(event *Event, setWireInfo bool) error {
 	}
 
 	event.topologicalIndex = h.topologicalIndex
-	h.topologicalIndex++
 
 	if setWireInfo {
 		if err := h.SetWireInfo(event); err != nil {
@@ -750,6 +749,11 @@ func (h *Hashgraph) InsertEvent(event *Event, setWireInfo bool) error {
 	if err := h.Store.SetEvent(event); err != nil {
 		return fmt.Errorf("SetEvent: %s", err)
 	}
+
+	// The topological index is only consumed once the Event is stored, so that
+	// the stored Events are numbered without gaps (Bootstrap reads them back
+	// by consecutive index).
+	h.topologicalIndex++
 
 	if err := h.updateAncestorFirstDescendant(event); err != nil {
 		return fmt.Errorf("UpdateAncestorFirstDescendant: %s", err)
